@@ -63,7 +63,10 @@ def gen_case(seed, i):
     if rng.random() < 0.2:
         dargs += ["--keep-name", rng.choice(["a*", "*.txt", "*"])]
     return {"i": i, "cfg": cfg, "world": world.to_json(), "roots": roots, "gflags": gflags, "dargs": dargs,
-            "op": rng.choice(["remove", "remove", "link", "link", "softlink", "softlink", "move", "dedupe"]),
+            "op": rng.choice(["remove", "remove", "link", "link", "softlink", "softlink", "move", "move", "dedupe"]),
+            # move only: every rename fails with EXDEV in the REAL run (a target on a file system the mount list does
+            # not know: bind mount, tmpfs) - the announced moves must still happen (by copy) and be counted
+            "move_exdev": rng.random() < 0.4,
             "fmt": rng.choice(["default", "json"]), "seam_seed": rng.randint(1, 10**9)}
 
 
@@ -219,9 +222,26 @@ def run_case(case):
                     V("script-runs", "bash failed on the printed script: rc=%s %s" % (b.returncode, b.stderr.decode("utf-8", "replace")[-300:]))
                 i1 = canon_tree(inventory(rd.world))
                 build()
+            # (not with -S: a symbolic-link member is renamed as a link but copied as the file it points to - the
+            # two ways of moving are not equivalent for it, see c02-moved-relative-symlink-dangles)
+            exdev = op == "move" and case.get("move_exdev") and "-S" not in case["gflags"]
+            inv_before_real = inventory(rd.world) if exdev else None
             real = ops.dedupe(rd, op, g.out, extra=case["dargs"], target=target, env=env, now_ns=later,
-                              seed=case["seam_seed"] + 1, threads_env=1)
+                              seed=case["seam_seed"] + 1, threads_env=1,
+                              plan=[rule(kind="rename", act="errno:EXDEV", count="inf", prefix=rd.world)] if exdev else None)
             i2 = canon_tree(inventory(rd.world))
+            if exdev:
+                inv_after_real = inventory(rd.world)
+                for o in sops:
+                    if o[0] == "mv" and len(o) >= 3:
+                        src, dst = ops.relw(rd, o[1]), ops.relw(rd, o[2])
+                        b_ = inv_before_real.get(src) if src else None
+                        if b_ is None or b_.type != "f":
+                            continue
+                        a_src, a_dst = inv_after_real.get(src), inv_after_real.get(dst) if dst else None
+                        if a_src is not None or a_dst is None or a_dst.sha != b_.sha:
+                            V("announced-move-happens", "the script announces `mv %s %s`; with renames failing (EXDEV) the real run left source=%s target=%s" % (
+                                b2s(src), b2s(dst), "present" if a_src is not None else "gone", "missing" if a_dst is None else "other bytes" if a_dst.sha != b_.sha else "ok"), real)
             if real.rc != 0:
                 V("real-run-succeeds", "real run failed rc=%s" % real.rc, real)
             if op in ("remove", "link", "softlink") and i1 != i2:
@@ -241,7 +261,7 @@ def run_case(case):
             if op == "dedupe":
                 want = sorted(o for o in sops if o[0] == "reflink")
                 got = sorted((k, a, b_) for (k, a, b_) in tops if k == "reflink" and b"<tmp>" not in b_)
-            if want != got:
+            if want != got and not exdev:
                 V("script-equals-real-ops", "operations differ: only in script %s ; only in real run %s" % (
                     [o for o in want if o not in got][:4], [o for o in got if o not in want][:4]),
                   # (temporaries are left out: the other operand of the same operation names the file, and the
